@@ -73,6 +73,7 @@ type owCase struct {
 	t0, t1                                           int // time window written by buildFiles (0,0 = the whole period)
 	mixedWidths                                      bool
 	confluence                                       bool
+	dir                                              string
 	rolling                                          bool // -final-states names the file the initial states come from
 }
 
@@ -86,7 +87,10 @@ func contains(l []string, s string) bool {
 }
 
 func drawOwCase(w *simrt.Tape) *owCase {
-	c := &owCase{in: "/sim/model.h5"}
+	// where the files live: absolute, relative, with a blank or dots in a directory name (never a
+	// comma or an equals sign: the -outputs list is split at those)
+	dir := []string{"/sim/", "/sim/", "", "./", "/data/run 1/", "/a.b/c-d/", "/sim/model.h5.d/"}[w.Choose(7)]
+	c := &owCase{in: dir + "model.h5", dir: dir}
 	c.G = sizeDraw(w, 5, 9)
 	c.T = sizeDraw(w, 12, 50)
 	nModels := 1 + w.Choose(4)
@@ -258,7 +262,7 @@ func drawOwCase(w *simrt.Tape) *owCase {
 	sort.SliceStable(c.links, func(i, j int) bool { return c.links[i].srcGen < c.links[j].srcGen })
 	// command line
 	if w.Bool(85) {
-		c.out = "/sim/out.h5"
+		c.out = dir + "out.h5"
 	}
 	var names []string
 	for _, m := range c.models {
@@ -288,20 +292,20 @@ func drawOwCase(w *simrt.Tape) *owCase {
 	}
 	c.paramFile, c.stateFile, c.tsFile = c.in, c.in, c.in
 	if w.Bool(20) {
-		c.paramFile = "/sim/params.h5"
+		c.paramFile = dir + "params.h5"
 		c.flags.Parameters = c.paramFile
 	}
 	if w.Bool(20) {
-		c.stateFile = "/sim/states.h5"
+		c.stateFile = dir + "states.h5"
 		c.flags.InitialStates = c.stateFile
 	}
 	if w.Bool(20) {
-		c.tsFile = "/sim/ts.h5"
+		c.tsFile = dir + "ts.h5"
 		c.flags.InputTimeseries = c.tsFile
 	}
 	c.finalFile = c.out
 	if c.out != "" && w.Bool(20) {
-		c.finalFile = "/sim/final.h5"
+		c.finalFile = dir + "final.h5"
 		c.flags.FinalStates = c.finalFile
 	} else if c.out != "" && w.Choose(10) == 9 {
 		// a rolling hot-start file: the final states replace the initial states they were read from
@@ -460,7 +464,7 @@ func engineOwSimExt(rc *RunCtx) *Outcome {
 	w := rc.W
 	c := drawOwCase(w)
 	if c.out == "" {
-		c.out = "/sim/out.h5"
+		c.out = c.dir + "out.h5"
 		c.finalFile = c.out
 		c.args = []string{c.in, c.out}
 	}
@@ -473,7 +477,7 @@ func engineOwSimExt(rc *RunCtx) *Outcome {
 	var pairs []string
 	for i, m := range c.models {
 		if w.Bool(50) || (i == len(c.models)-1 && len(ext) == 0) {
-			ext[m.name] = "/sim/ext-" + m.name + ".h5"
+			ext[m.name] = c.dir + "ext-" + m.name + ".h5"
 			pairs = append(pairs, m.name+"="+ext[m.name])
 		}
 	}
